@@ -120,7 +120,7 @@ Lemma undo_Fr : forall l s, sql (fold_left run_undo l s) = sql s /\ hard (fold_l
                             cfault (fold_left run_undo l s) = cfault s.
 Proof.
   induction l as [|u l IH]; intro s; simpl; [intuition|].
-  destruct (IH (run_undo s u)) as (A & B & C & D & E). rewrite A, B, C, D, E. destruct u; simpl; intuition.
+  destruct (IH (run_undo s u)) as (A & B & C & D & E). rewrite A, B, C, D, E. destruct u; simpl; try destruct (fget d (fs s)); simpl; intuition.
 Qed.
 
 Lemma WB_with_ds : forall m, WB m -> WB (with_ds shipped m).
